@@ -172,7 +172,7 @@ func main() {
 					isInt = true
 				}
 			}
-			style := (i + kj) % 3
+			style := (i + kj) % 4
 			if isInt {
 				v := genInt(r, k)
 				if k == drop {
@@ -198,7 +198,24 @@ func main() {
 						printable = false
 					}
 				}
+				// a plain (unquoted) scalar, as the README writes digit strings on the AMF side: letters, digits and dots only, and none of
+				// the words YAML reads as a boolean or null
+				plain := printable && len(v) > 0
+				for _, c := range []byte(v) {
+					if !(c >= '0' && c <= '9' || c >= 'a' && c <= 'z' || c >= 'A' && c <= 'Z' || c == '.') {
+						plain = false
+					}
+				}
+				switch strings.ToLower(v) {
+				case "y", "n", "yes", "no", "on", "off", "true", "false", "null":
+					plain = false
+				}
+				if plain && (v[0] == '.' || v[len(v)-1] == '.') {
+					plain = false
+				}
 				switch {
+				case style == 3 && plain:
+					lines = append(lines, fmt.Sprintf("  %s: %s", k, v))
 				case style == 1 && printable:
 					lines = append(lines, fmt.Sprintf("  %s: '%s'", k, strings.ReplaceAll(v, "'", "''")))
 				case style == 2:
